@@ -14,6 +14,7 @@ import (
 	"fmt"
 	"sort"
 	"strconv"
+	"strings"
 
 	"lunar/engine/actions"
 	"lunar/engine/config"
@@ -25,6 +26,8 @@ import (
 	"lunar/toolkit-core/clock"
 
 	spoe "github.com/negasus/haproxy-spoe-go/action"
+
+	"verif/harness/internal/proto"
 )
 
 const fixedBody = "{\"message\": \"GO Lunar\"}"
@@ -146,4 +149,183 @@ func respPolicy(objs []any) string {
 		return "err:no-active-remedies-variable " + fmtSpoe(out)
 	}
 	return fmtSpoe(out)
+}
+
+// ---------------------------------------------------------------- legacy dispatch with remedy specs
+//
+// `legacyreq h=<request headers> <remedy>…` / `legacyresp status=<S> <remedy>…`: the configured global
+// remedies, in order, on the REAL runner.DispatchOnRequest / DispatchOnResponse (runOnRequest,
+// obtainModifiedEarlyResponse, runOnResponse) with the real plugins:
+//   fixed=<S>         fixed_response{status_code S}     (answers when the request carries early-response: true)
+//   acct=<hdrs>       account_orchestration, one account whose tokens are <hdrs>
+//   apikey=<hdrs>     authentication with an api_key account
+//   oauth=<secret>    authentication with an o_auth account {client_secret: secret}  (GenerateRequestAction)
+//   retry=<N>,<lo>,<hi>  retry{attempts 1, initial_cooldown_seconds N, status_code lo..hi}
+// The *_active_remedies variables are removed from the answer.
+
+func parseHdrList(s string) ([][2]string, bool) {
+	if s == "_" {
+		return nil, true
+	}
+	var out [][2]string
+	seen := map[string]int{}
+	for _, item := range splitNonEmpty(s, ";") {
+		kv := splitNonEmpty(item, "|")
+		if len(kv) != 2 {
+			return nil, false
+		}
+		k, v := proto.Dec(kv[0]), proto.Dec(kv[1])
+		if i, dup := seen[k]; dup { // like the driver: a later binding replaces the earlier one, at the end
+			out = append(out[:i], out[i+1:]...)
+			for kk, ii := range seen {
+				if ii > i {
+					seen[kk] = ii - 1
+				}
+			}
+		}
+		seen[k] = len(out)
+		out = append(out, [2]string{k, v})
+	}
+	return out, true
+}
+
+func splitNonEmpty(s, sep string) []string { return strings.Split(s, sep) }
+
+func buildLegacy(words []string) (*sharedConfig.PoliciesConfig, bool) {
+	pc := &sharedConfig.PoliciesConfig{Accounts: map[sharedConfig.AccountID]sharedConfig.Account{}}
+	for i, w := range words {
+		eq := strings.IndexByte(w, '=')
+		if eq < 0 {
+			return nil, false
+		}
+		kind, val := w[:eq], w[eq+1:]
+		name := fmt.Sprintf("r%d", i)
+		acc := sharedConfig.AccountID(name)
+		var cfg sharedConfig.RemedyConfig
+		switch kind {
+		case "fixed":
+			n, err := strconv.Atoi(val)
+			if err != nil {
+				return nil, false
+			}
+			cfg.FixedResponse = &sharedConfig.FixedResponseConfig{StatusCode: n}
+		case "acct":
+			l, ok := parseHdrList(val)
+			if !ok {
+				return nil, false
+			}
+			var toks []sharedConfig.Token
+			for _, kv := range l {
+				toks = append(toks, sharedConfig.Token{Header: &sharedConfig.Header{Name: kv[0], Value: kv[1]}})
+			}
+			pc.Accounts[acc] = sharedConfig.Account{Tokens: toks}
+			cfg.AccountOrchestration = &sharedConfig.AccountOrchestrationConfig{RoundRobin: []sharedConfig.AccountID{acc}}
+		case "apikey":
+			l, ok := parseHdrList(val)
+			if !ok {
+				return nil, false
+			}
+			var toks []sharedConfig.Header
+			for _, kv := range l {
+				toks = append(toks, sharedConfig.Header{Name: kv[0], Value: kv[1]})
+			}
+			pc.Accounts[acc] = sharedConfig.Account{Authentication: sharedConfig.Authentication{APIKey: &sharedConfig.APIKey{Tokens: toks}}}
+			cfg.Authentication = &sharedConfig.AuthConfig{Account: acc}
+		case "oauth":
+			sec := proto.Dec(val)
+			for i := 0; i < len(sec); i++ {
+				c := sec[i]
+				if !(c >= 'a' && c <= 'z' || c >= 'A' && c <= 'Z' || c >= '0' && c <= '9') {
+					return nil, false
+				}
+			}
+			pc.Accounts[acc] = sharedConfig.Account{Authentication: sharedConfig.Authentication{
+				OAuth: &sharedConfig.OAuth{Tokens: []sharedConfig.Body{{Name: "client_secret", Value: sec}}}}}
+			cfg.Authentication = &sharedConfig.AuthConfig{Account: acc}
+		case "retry":
+			p := strings.Split(val, ",")
+			if len(p) != 3 {
+				return nil, false
+			}
+			n, e1 := strconv.Atoi(p[0])
+			lo, e2 := strconv.Atoi(p[1])
+			hi, e3 := strconv.Atoi(p[2])
+			if e1 != nil || e2 != nil || e3 != nil || n < 0 || strconv.Itoa(n) != p[0] {
+				return nil, false
+			}
+			cfg.Retry = &sharedConfig.RetryConfig{Attempts: 1, InitialCooldownSeconds: n, CooldownMultiplier: 1,
+				Conditions: sharedConfig.RetryConfigConditions{StatusCode: []sharedConfig.Range[int]{{From: lo, To: hi}}}}
+		default:
+			return nil, false
+		}
+		pc.Global.Remedies = append(pc.Global.Remedies, sharedConfig.Remedy{Enabled: true, Name: name, Config: cfg})
+	}
+	return pc, true
+}
+
+func legacyServices() *services.PoliciesServices {
+	s := newPolicyServices()
+	s.Remedies.AuthPlugin = remedies.NewAuthPlugin()
+	return s
+}
+
+func stripAllActive(as spoe.Actions) spoe.Actions {
+	out := spoe.Actions{}
+	for _, a := range as {
+		if a.Name == "request_active_remedies" || a.Name == "response_active_remedies" {
+			continue
+		}
+		out = append(out, a)
+	}
+	return out
+}
+
+func legacyReq(w []string) string {
+	if len(w) < 1 || !strings.HasPrefix(w[0], "h=") {
+		return "bad-op"
+	}
+	h, ok := parseHdrs(w[0][2:])
+	if !ok {
+		return "bad-op"
+	}
+	pc, ok := buildLegacy(w[1:])
+	if !ok {
+		return "bad-op"
+	}
+	tree, err := config.BuildEndpointPolicyTree(nil)
+	if err != nil {
+		return "err:policy-tree"
+	}
+	req := messages.OnRequest{ID: "t1", SequenceID: "t1", Method: "GET", Scheme: "https", URL: "verif.test/c07",
+		Path: "/c07", Headers: h}
+	out, err := runner.DispatchOnRequest(req, tree, pc, legacyServices(), runner.NewDiagnosisWorker())
+	if err != nil {
+		return "err:dispatch"
+	}
+	return fmtSpoe(stripAllActive(out))
+}
+
+func legacyResp(w []string) string {
+	if len(w) < 1 || !strings.HasPrefix(w[0], "status=") {
+		return "bad-op"
+	}
+	st, err := strconv.Atoi(w[0][7:])
+	if err != nil {
+		return "bad-op"
+	}
+	pc, ok := buildLegacy(w[1:])
+	if !ok {
+		return "bad-op"
+	}
+	tree, err := config.BuildEndpointPolicyTree(nil)
+	if err != nil {
+		return "err:policy-tree"
+	}
+	resp := messages.OnResponse{ID: "t1", SequenceID: "t1", Method: "GET", URL: "verif.test/c07", Status: st,
+		Headers: map[string]string{}}
+	out, err := runner.DispatchOnResponse(resp, tree, &pc.Global, legacyServices(), runner.NewDiagnosisWorker())
+	if err != nil {
+		return "err:dispatch"
+	}
+	return fmtSpoe(stripAllActive(out))
 }
